@@ -267,4 +267,10 @@ SliceAgree == \A a \in TBounds \cup {None}, b \in TBounds \cup {None}, c \in TSt
 
 \* hist is observation only
 View == <<root, cur, st, chk, Len(hist)>>
+\* behaviour generation collapses slices by outcome (NumPy decides which bounds are equivalent) but keeps
+\* every argument combination of the crop / dedispersion / snippet operations: two argument tuples with
+\* the same specified outcome may still take different paths through the implementation's window arithmetic
+GenView == <<root, cur, st, chk, Len(hist),
+             IF hist # <<>> /\ hist[Len(hist)].op \in {"coh_dd", "shift_crop", "incoh_dd", "snippet"}
+             THEN hist[Len(hist)].args ELSE <<>>>>
 =============================================================================
